@@ -20,7 +20,7 @@ theorem actOK_none (cli : Nat → Option CS) (c : Nat) : ActOK cli c none := by
 
 /-- what `serve` leaves behind for the client it served, when the sync succeeded -/
 theorem inv_step (env : Env) (st : MTState) (q : MReq) (hI : Inv st) :
-    Inv (stepMT env st q).1 := by
+    Inv (stepMTRun env st q).1 := by
   rcases stepMT_cases env st q with ⟨hcli, hwk, hclk, _, _, _⟩ |
     ⟨cs, cs', u, hcs, hs, hcli, hwk, hclk, _, _, _⟩
   · exact ⟨by rw [hcli, hclk]; exact cliOK_mono hI.cli, by rw [hwk]; exact hI.invalNil,
@@ -132,10 +132,37 @@ theorem inv_init (init : Nat → Side) (dom : Nat → List Nat) (size : Nat) :
   · intro w c
     exact actOK_none _ _
 
+theorem stepMT_of_read (env : Env) (st : MTState) (q : MReq) (h : q.r.out ≠ .requestUnreadable) :
+    stepMT env st q = stepMTRun env st q := by
+  simp [stepMT, h]
+
+theorem stepMT_of_lost (env : Env) (st : MTState) (q : MReq) (h : q.r.out = .requestUnreadable) :
+    stepMT env st q = stepMTLost st q := by
+  simp [stepMT, h]
+
+/-- a request the compiler server cannot read changes nothing there (only the client's
+    belief moves) and compiles nothing -/
+theorem stepMTLost_spec (st : MTState) (q : MReq) :
+    (stepMTLost st q).1.cli = st.cli ∧ (stepMTLost st q).1.wk = st.wk ∧
+    (stepMTLost st q).1.clock = st.clock + 1 ∧ (stepMTLost st q).2.used = none ∧
+    (stepMTLost st q).2.res = .unpickleErr := by
+  unfold stepMTLost
+  exact ⟨(ack1_fields _ _ _ _ _).1, (ack1_fields _ _ _ _ _).2.1, (ack1_fields _ _ _ _ _).2.2.1, rfl, rfl⟩
+
+theorem inv_step' (env : Env) (st : MTState) (q : MReq) (hI : Inv st) :
+    Inv (stepMT env st q).1 := by
+  by_cases hl : q.r.out = .requestUnreadable
+  · rw [stepMT_of_lost env st q hl]
+    obtain ⟨hcli, hwk, hclk, _, _⟩ := stepMTLost_spec st q
+    exact ⟨by rw [hcli, hclk]; exact cliOK_mono hI.cli, by rw [hwk]; exact hI.invalNil,
+      by rw [hcli, hwk, hclk]; exact fun w c v h => entryOK_mono (hI.entry w c v h),
+      by rw [hcli, hwk]; exact hI.act⟩
+  · rw [stepMT_of_read env st q hl]; exact inv_step env st q hI
+
 theorem inv_exec (env : Env) (h : List MReq) : ∀ st, Inv st → Inv (execMT env st h) := by
   induction h with
   | nil => intro st hI; exact hI
-  | cons q qs ih => intro st hI; exact ih _ (inv_step env st q hI)
+  | cons q qs ih => intro st hI; exact ih _ (inv_step' env st q hI)
 
 theorem holds_current (x : WClient) (v : CS) (h : Holds x v) (db : Nat) (d3 : Db3)
     (hx : x.dbs db = some d3) :
@@ -156,7 +183,7 @@ theorem holds_current (x : WClient) (v : CS) (h : Holds x v) (db : Nat) (d3 : Db
 /-- **Every request is compiled against the compiler server's current state** of the
     client and database it names — whatever happened before. -/
 theorem usedCurrent_step (env : Env) (st : MTState) (q : MReq) (hI : Inv st) :
-    (stepMT env st q).2.usedCurrent (stepMT env st q).1 q := by
+    (stepMTRun env st q).2.usedCurrent (stepMTRun env st q).1 q := by
   intro u hu
   rcases stepMT_cases env st q with ⟨_, _, _, _, hused, _⟩ |
     ⟨cs, cs', _, hcs, hs, hcli, _, _, hused, _, _⟩
@@ -190,7 +217,7 @@ theorem usedCurrent_step (env : Env) (st : MTState) (q : MReq) (hI : Inv st) :
 
 /-- a request that does not end in `FailedStateSync` keeps "tier-1 belief ⇒ compiler server" -/
 theorem agree1_step (env : Env) (st : MTState) (q : MReq) (c : Nat) (h : Agree1 st c)
-    (hres : (stepMT env st q).2.res ≠ .syncFail) : Agree1 (stepMT env st q).1 c := by
+    (hres : (stepMTRun env st q).2.res ≠ .syncFail) : Agree1 (stepMTRun env st q).1 c := by
   rcases stepMT_cases env st q with ⟨_, _, _, _, _, hr⟩ |
     ⟨cs, cs', u, hcs, hs, hcli, _, _, _, hr, hbel⟩
   · exact absurd hr hres
@@ -241,7 +268,7 @@ theorem agree1_init (init : Nat → Side) (dom : Nat → List Nat) (size : Nat) 
 
 /-- with "tier-1 belief ⇒ compiler server" the request is compiled against what it supplied -/
 theorem usedSupplied_step (env : Env) (st : MTState) (q : MReq) (hI : Inv st)
-    (ha : Agree1 st q.c) : (stepMT env st q).2.usedSupplied q := by
+    (ha : Agree1 st q.c) : (stepMTRun env st q).2.usedSupplied q := by
   intro u hu
   obtain ⟨v, hv, hcur⟩ := usedCurrent_step env st q hI u hu
   rcases stepMT_cases env st q with ⟨_, _, _, _, hused, _⟩ |
@@ -280,7 +307,7 @@ theorem usedSupplied_step (env : Env) (st : MTState) (q : MReq) (hI : Inv st)
 /-- without status 2: "recorded version ⇒ the worker holds exactly that version" is preserved -/
 theorem recordExact_step (env : Env) (st : MTState) (q : MReq) (hI : Inv st)
     (hR : RecordExact st) (hout : q.r.out ≠ .resultUnpicklable) :
-    RecordExact (stepMT env st q).1 := by
+    RecordExact (stepMTRun env st q).1 := by
   rcases stepMT_cases env st q with ⟨_, hwk, _, _, _, _⟩ |
     ⟨cs, cs', u, hcs, hs, _, hwk, _, _, _, _⟩
   · intro w c v hv; rw [hwk] at hv ⊢; exact hR w c v hv
@@ -335,23 +362,58 @@ theorem recordExact_init (init : Nat → Side) (dom : Nat → List Nat) (size : 
     RecordExact (initMT init dom size) := by
   intro w c v hv; simp [initMT, cacheGet] at hv
 
+theorem recordExact_step' (env : Env) (st : MTState) (q : MReq) (hI : Inv st)
+    (hR : RecordExact st) (hout : q.r.out ≠ .resultUnpicklable) :
+    RecordExact (stepMT env st q).1 := by
+  by_cases hl : q.r.out = .requestUnreadable
+  · rw [stepMT_of_lost env st q hl]
+    obtain ⟨_, hwk, _, _, _⟩ := stepMTLost_spec st q
+    intro w c v hv; rw [hwk] at hv ⊢; exact hR w c v hv
+  · rw [stepMT_of_read env st q hl]; exact recordExact_step env st q hI hR hout
+
 theorem recordExact_exec (env : Env) (h : List MReq) :
     ∀ st, Inv st → RecordExact st → NoStatus2MT h → RecordExact (execMT env st h) := by
   induction h with
   | nil => intro st _ hR _; exact hR
   | cons q qs ih =>
     intro st hI hR hn
-    exact ih _ (inv_step env st q hI) (recordExact_step env st q hI hR (hn q (by simp)))
+    exact ih _ (inv_step' env st q hI) (recordExact_step' env st q hI hR (hn q (by simp)))
       (fun q' hq' => hn q' (by simp [hq']))
 
 theorem agree1_exec (env : Env) (c : Nat) (h : List MReq) :
-    ∀ st, Agree1 st c → NoFailedSync env st h → Agree1 (execMT env st h) c := by
+    ∀ st, Agree1 st c → NoFailedSync env st h → NoLostRequestMT h → Agree1 (execMT env st h) c := by
   induction h with
-  | nil => intro st ha _; exact ha
+  | nil => intro st ha _ _; exact ha
   | cons q qs ih =>
-    intro st ha hn
-    apply ih _ (agree1_step env st q c ha (hn _ (by simp [traceMT])))
-    intro o ho
-    exact hn o (by simp [traceMT, ho])
+    intro st ha hn hr
+    have hq := hr q (by simp)
+    simp only [execMT]
+    have hres : (stepMTRun env st q).2.res ≠ .syncFail := by
+      have := hn (stepMT env st q).2 (by simp [traceMT])
+      rwa [stepMT_of_read env st q hq] at this
+    rw [stepMT_of_read env st q hq]
+    apply ih _ (agree1_step env st q c ha hres)
+    · intro o ho
+      apply hn o
+      simp only [traceMT, List.mem_cons]
+      right
+      rw [stepMT_of_read env st q hq]; exact ho
+    · intro q' hq'; exact hr q' (by simp [hq'])
+
+theorem usedCurrent_step' (env : Env) (st : MTState) (q : MReq) (hI : Inv st) :
+    (stepMT env st q).2.usedCurrent (stepMT env st q).1 q := by
+  by_cases hl : q.r.out = .requestUnreadable
+  · rw [stepMT_of_lost env st q hl]
+    obtain ⟨_, _, _, hu, _⟩ := stepMTLost_spec st q
+    intro u hu'; rw [hu] at hu'; cases hu'
+  · rw [stepMT_of_read env st q hl]; exact usedCurrent_step env st q hI
+
+theorem usedSupplied_step' (env : Env) (st : MTState) (q : MReq) (hI : Inv st)
+    (ha : Agree1 st q.c) : (stepMT env st q).2.usedSupplied q := by
+  by_cases hl : q.r.out = .requestUnreadable
+  · rw [stepMT_of_lost env st q hl]
+    obtain ⟨_, _, _, hu, _⟩ := stepMTLost_spec st q
+    intro u hu'; rw [hu] at hu'; cases hu'
+  · rw [stepMT_of_read env st q hl]; exact usedSupplied_step env st q hI ha
 
 end EdbVerif.SyncMT
